@@ -438,6 +438,7 @@ func checkFloors() []string {
 	need("store:disable-put", run.Scale(10, 1000))
 	need("op:set-creds-store", run.Scale(50, 5000))
 	need("codec:decode", run.Scale(1000, 100000))
+	need("codec:json-string", run.Scale(2500, 150000))
 	need("doc:lone-surrogate", run.Scale(10, 500))
 	need("put:invalid-utf8", run.Scale(10, 500))
 	if run.Dist["crash:unaligned"]*4 > run.Dist["crash:judged-kills"] {
